@@ -600,6 +600,18 @@ class Interp:
             env.set(t.id, v)
         elif isinstance(t, (ast.Tuple, ast.List)):
             vals = list(self.iterate(v, t))
+            stars = [i for i, e in enumerate(t.elts) if isinstance(e, ast.Starred)]
+            if len(stars) == 1:
+                i, after = stars[0], len(t.elts) - stars[0] - 1
+                if len(vals) < len(t.elts) - 1:
+                    raise Raised(ExcVal("ValueError", ("not enough values to unpack",)), t)
+                mid = vals[i:len(vals) - after]
+                for e, x in zip(t.elts[:i], vals[:i]):
+                    self.assign(e, x, env)
+                self.assign(t.elts[i].value, mid, env)
+                for e, x in zip(t.elts[i + 1:], vals[len(vals) - after:] if after else []):
+                    self.assign(e, x, env)
+                return
             if len(vals) != len(t.elts):
                 raise Raised(ExcVal("ValueError", ("unpack",)), t)
             for e, x in zip(t.elts, vals):
